@@ -104,6 +104,9 @@ pub struct MclmcStats<P: HasDims, H: Storable<P>, A: Storable<P>, Pt: Storable<P
     /// full size. The `−energy_change` term corrects for integration error.
     /// See Robnik & Seljak (2023), arXiv:2212.08549.
     pub log_weight: f64,
+    // The adaptation statistics (`adapt`, flattened below) already export `tuning`;
+    // exporting it here as well declared the statistic name twice.
+    #[storable(ignore)]
     pub tuning: bool,
     #[storable(flatten)]
     pub hamiltonian: H,
